@@ -319,11 +319,17 @@ func expectedInitial(d initDir) (lines []string, judged bool) {
 type c20case struct {
 	Init string   `json:"init"`
 	Ops  []string `json:"ops"`
+	// Hold >= 1: the consumer of Lines() stops after Hold-1 lines of the initial files; the first operation is
+	// applied while the initial read is parked there (if it still is), then the consumer resumes
+	Hold int `json:"hold,omitempty"`
 }
 
 // runCase runs one initial directory + op sequence; returns a mismatch message.
-func runCase(t *testing.T, d initDir, ops []opKind) (msg string) {
+func runCase(t *testing.T, d initDir, ops []opKind) (msg string) { return runCaseHold(t, d, ops, 0) }
+
+func runCaseHold(t *testing.T, d initDir, ops []opKind, hold int) (msg string) {
 	synctest.Test(t, func(t *testing.T) {
+		resume := make(chan struct{})
 		w := &world{fs: &memFS{files: map[string][]byte{}}, events: make(chan fsnotify.Event), stopColl: make(chan struct{})}
 		var entries []os.DirEntry
 		var names []string
@@ -346,6 +352,14 @@ func runCase(t *testing.T, d initDir, ops []opKind) (msg string) {
 		go func() {
 			defer close(collDone)
 			for {
+				if hold > 0 && len(w.got) == hold-1 {
+					// a slow consumer: nothing is taken off Lines() until the harness says so
+					select {
+					case <-resume:
+					case <-w.stopColl:
+						return
+					}
+				}
 				select {
 				case l := <-r.Lines():
 					w.got = append(w.got, l)
@@ -355,6 +369,14 @@ func runCase(t *testing.T, d initDir, ops []opKind) (msg string) {
 			}
 		}()
 		synctest.Wait()
+		if hold > 0 {
+			// the live file changes (and its event arrives) while the initial read is parked on the slow consumer
+			w.apply(ops[0])
+			ops = ops[1:]
+			hold = 0
+			close(resume)
+			synctest.Wait()
+		}
 		select {
 		case <-r.InitFilesDone():
 		default:
@@ -424,7 +446,7 @@ func runC20(t *testing.T, run *mc.Run) int {
 						}
 					}
 				}
-				m := runCase(t, d, ops)
+				m := runCaseHold(t, d, ops, rp.Hold)
 				fmt.Println("result:", m)
 				if m != "" {
 					fmt.Printf("VIOLATION property=C20 replay=%s\n", run.Replay)
@@ -449,7 +471,7 @@ func runC20(t *testing.T, run *mc.Run) int {
 		} else {
 			class = "ops:" + names[len(names)-1]
 		}
-		run.Violation("C20:"+class, c20case{d.Name, names}, fmt.Sprintf("initial directory %q, operations %v: %s", d.Name, names, m))
+		run.Violation("C20:"+class, c20case{Init: d.Name, Ops: names}, fmt.Sprintf("initial directory %q, operations %v: %s", d.Name, names, m))
 	}
 	for _, d := range small {
 		var rec func(seq []opKind)
@@ -502,6 +524,29 @@ func runC20(t *testing.T, run *mc.Run) int {
 		}
 		rec(nil)
 	}
+	// a change of the live file, with its event, DURING the initial reads: the consumer of Lines() takes h-1
+	// lines and stalls, the live file is appended to (Write event delivered while the initial read is parked),
+	// the consumer resumes, and a later append flushes whatever the ignored event left unread
+	during := 0
+	for _, d := range small {
+		init, judged := expectedInitial(d)
+		if !judged {
+			continue
+		}
+		for h := 1; h <= len(init)+1; h++ {
+			for _, first := range []opKind{opAppend2, opFragment, opLong} {
+				for _, second := range []opKind{opAppend2, opLong} {
+					n++
+					during++
+					seq := []opKind{first, second}
+					if m := runCaseHold(t, d, seq, h); m != "" {
+						run.Violation("C20:during-initial-read:"+opNames[first], c20case{Init: d.Name, Ops: []string{opNames[first], opNames[second]}, Hold: h},
+							fmt.Sprintf("initial directory %q, consumer stalled after %d lines, %s (+ its event) applied meanwhile, then %s: %s", d.Name, h-1, opNames[first], opNames[second], m))
+					}
+				}
+			}
+		}
+	}
 	for _, d := range big {
 		seqs := [][]opKind{nil, {opAppend2}, {opRotate, opAppend2}}
 		if strings.HasPrefix(d.Name, "pair-") {
@@ -519,8 +564,8 @@ func runC20(t *testing.T, run *mc.Run) int {
 		samples = samples[:8]
 	}
 	cov := mc.Coverage{Level: "model_checking", States: n, Transitions: n * depth, Traces: n, Evaluations: n, Distinct: withRotation, Exhaustive: complete, Samples: samples,
-		Rule:  fmt.Sprintf("the real LogDirReader loop in a synctest bubble over an in-memory file system: every sequence of <=%d operations over {append 2 lines, append a fragment, append a 5 kB fragment, complete it, append a 5 kB line, rotate (rename+create chain), truncate then write, remove then create} from %d small initial directories, each change followed by its fsnotify events one at a time with quiescence in between; plus %d initial directories with 0..12 and sparse (10,100,999) rotated files x {start only, append, rotate+append}. Oracle: strings from Lines() == reference list. distinct_nontrivial = sequences containing a rotation or truncation", depth, len(small), len(big)),
-		Extra: map[string]any{"max_ops": depth, "initial_dirs": len(small) + len(big)}}
+		Rule:  fmt.Sprintf("the real LogDirReader loop in a synctest bubble over an in-memory file system: every sequence of <=%d operations over {append 2 lines, append a fragment, append a 5 kB fragment, complete it, append a 5 kB line, rotate (rename+create chain), truncate then write, remove then create} from %d small initial directories, each change followed by its fsnotify events one at a time with quiescence in between; plus %d initial directories with 0..12 and sparse (10,100,999) rotated files x {start only, append, rotate+append}; plus, for every small directory, the consumer of Lines() stalled after each number of initial lines while the live file is appended to (event delivered during the initial read), then resumed and flushed by a later append. Oracle: strings from Lines() == reference list. distinct_nontrivial = sequences containing a rotation or truncation", depth, len(small), len(big)),
+		Extra: map[string]any{"max_ops": depth, "initial_dirs": len(small) + len(big), "changes_during_initial_read": during}}
 	cov.Assumptions = []string{"testing/synctest semantics; in-memory file system with read-through handles; events delivered one at a time (the property's proviso)"}
 	return run.Finish(cov)
 }
